@@ -517,3 +517,8 @@ pub fn vp8_intra_predict(
         mbw, mbh, mbx, mby, luma_mode, chroma_mode, bmodes, resdata, top_border, left_border, ybuf, ubuf, vbuf,
     )
 }
+
+/// `Vp8Decoder::read_frame_header` on a complete key frame (see `vp8::verif_frame_header`).
+pub fn vp8_frame_header(frame: &[u8]) -> Result<(Vec<i64>, Vec<u8>), DecodingError> {
+    crate::vp8::verif_frame_header(frame)
+}
